@@ -56,7 +56,7 @@ _w(
       "create_zone converts only ValueError: KeyError/IndexError/OverflowError... escape again"),
     W("raise-outside-boundary", [(_SRC, "        return cls._ctor(_TzdbStreamData._from_stream(stream))\n\n    @classmethod\n    def _ctor", "        data = _TzdbStreamData._from_stream(stream)\n        if not data.tzdb_id_map:\n            raise ValueError(\"no zones\")\n        return cls._ctor(data)\n\n    @classmethod\n    def _ctor")], ("R20.1",),
       "a validation added after the conversion boundary raises a foreign type"),
-    W("subscript-outside-boundary", [(_SRC, "        if not (canonical_id := self.canonical_id_map.get(_Preconditions._check_not_null(id_, \"id_\"))):\n            raise ValueError(f\"Time zone with ID {id_} not found in source {self.__version}\")", "        canonical_id = self.canonical_id_map[_Preconditions._check_not_null(id_, \"id_\")]")], ("R20.1",),
+    W("subscript-outside-boundary", [(_SRC, "        if (canonical_id := self.canonical_id_map.get(_Preconditions._check_not_null(id_, \"id_\"))) is None:\n            raise ValueError(f\"Time zone with ID {id_} not found in source {self.__version}\")", "        canonical_id = self.canonical_id_map[_Preconditions._check_not_null(id_, \"id_\")]")], ("R20.1",),
       "KeyError from an unguarded map lookup in for_id"),
     W("read-byte-zero-at-eof", [(_RD, "        if not value:\n            raise InvalidPyodaDataError(\"Unexpected end of data stream\")\n        return value[0]", "        if not value:\n            return 0\n        return value[0]")], ("R20.2",),
       "read_byte no longer consumes-or-raises: count-driven loops spin up to 2^31 times on a truncated stream"),
@@ -66,6 +66,8 @@ _w(
       "read(length) on the caller's stream: a damaged length makes a raw file object allocate up to 2 GiB up front"),
     W("for-id-may-return-none", [(_SD, "                    case _:\n                        raise InvalidPyodaDataError(f\"Unknown time zone type {type_.name}\")", "                    case _:\n                        return None  # type: ignore[return-value]")], ("R20.1b",),
       "an unknown zone type yields None; DateTimeZoneCache then raises InvalidDateTimeZoneSourceError"),
+    W("lookup-error-on-falsy", [(_SRC, "\"id_\"))) is None:", "\"id_\"))) in (None, \"\"):")], ("R20.1",),
+      "for_id reports a present-but-empty canonical id as an unknown id (ValueError for an id get_ids() lists) - the defect D17"),
     W("twin-extract-helper", [(_RD, "        value: bytes = self.__input.read(1)\n        if not value:\n            raise InvalidPyodaDataError(\"Unexpected end of data stream\")\n        return value[0]", "        value: bytes = self.__input.read(1)\n        if not value:\n            raise InvalidPyodaDataError(\"Unexpected end of data stream: no more bytes\")\n        first = value[0]\n        return first")], (),
       "behaviour-preserving rewrite of read_byte"),
 )
